@@ -162,8 +162,8 @@ func checkC06(rep *Report, rng *Rng, tier string) {
 			if r.Chance(2, 3) {
 				stop = r.Intn(len(keys) + 2)
 			}
-			k := []string{"asc", "desc", "ascx", "descx", "itasc", "itdesc"}[r.Intn(6)]
-			ops = append(ops, Op{K: k, Name: names[r.Intn(len(names))], Key: tgt, WV: r.Chance(1, 2), N: stop})
+			k := []string{"asc", "desc", "ascx", "descx", "itasc", "itdesc", "nasc", "ndesc", "nit"}[r.Intn(9)]
+			ops = append(ops, Op{K: k, Name: names[r.Intn(len(names))], Key: tgt, WV: r.Chance(2, 3), N: stop})
 			switch r.Intn(12) {
 			case 0:
 				ops = append(ops, Op{K: "flush"})
@@ -201,6 +201,16 @@ func checkC09(rep *Report, rng *Rng, tier string) {
 		ops := GenHistory(r, g)
 		if !rev {
 			ops = weaveSnapshotsEx(r, ops, r.Intn(3), true)
+		} else {
+			// crash debris after the last root record, then the file is opened again
+			var out []Op
+			for _, o := range ops {
+				out = append(out, o)
+				if o.K == "flush" && r.Chance(1, 3) {
+					out = append(out, Op{K: "junk", N: 1 + r.Intn(60), Prio: int32(r.Intn(1000))})
+				}
+			}
+			ops = out
 		}
 		d := CfgDesc{Check: "C09", FileBacked: true, Post: "prefix"}
 		return d.RunCfg(), ops, d.String()
